@@ -72,7 +72,7 @@ func l3UnitT(name string, quick, thor map[string]int, only string, what string) 
 
 var (
 	l3Scalars = map[string]int{"KINDS": 15, "DEPTH": 0}
-	l3Enums   = map[string]int{"KINDS": 8128, "DEPTH": 0}
+	l3Enums   = map[string]int{"KINDS": 8128, "DEPTH": 0, "ENUMTEXT": 1}
 	l3Arrays  = map[string]int{"KINDS": 16, "DEPTH": 1, "ITEMKINDS": 3, "NUMSHAPES": 3, "STRSHAPES": 2}
 	l3Objects = map[string]int{"KINDS": 32, "DEPTH": 1, "ITEMKINDS": 7, "NUMSHAPES": 3, "STRSHAPES": 2}
 )
@@ -169,6 +169,9 @@ func init() {
 	reg(&Property{ID: "C01", Units: append(l3All("C01."),
 		l3Unit("min-sized-ints", map[string]int{"KINDS": 4, "DEPTH": 0, "MINSIZED": 1}, "C01.", "integer properties with --min-sized-ints on and off: every bound literal fits the sized type that was chosen"),
 		l3Unit("defaults", map[string]int{"KINDS": 15, "DEPTH": 0, "DEFAULTS": 1, "NUMSHAPES": 3, "STRSHAPES": 3, "NONULL": 1}, "C01.", "properties with a default together with value constraints (default + validator interplay in the emitted method)"),
+		l3UnitT("option-combinations", map[string]int{"KINDS": 8191, "DEPTH": 1, "N": 1, "DESC": 1, "CFG": 1, "NODOC": 1, "NUMSHAPES": 2, "STRSHAPES": 2, "ARRSHAPES": 1, "NULLABLE": 0},
+			map[string]int{"KINDS": 8191, "DEPTH": 1, "N": 1, "DESC": 1, "CFG": 1, "NODOC": 1, "NUMSHAPES": 2, "STRSHAPES": 2, "ARRSHAPES": 2}, "C01.",
+			"every kind of the grammar (incl. typed maps, string-or-null enums) at depth <= 1 x all 32 combinations of --only-models, --extra-imports, --struct-name-from-title, --tags yaml, --capitalization x descriptions/titles with newlines, quotes, backticks, comment terminators and format verbs: the emitted file type-checks against its own imports and is gofmt-stable (no document is decoded in this unit)"),
 		l3UnitT("multiple-of", map[string]int{"KINDS": 6, "DEPTH": 0, "NUMSHAPEMASK": 9, "MULT": 6, "MINSIZED": 1, "REF": 0, "NULLABLE": 0},
 			map[string]int{"KINDS": 6, "DEPTH": 0, "NUMSHAPEMASK": 9, "MULT": 6, "MINSIZED": 1}, "C01.",
 			"number/integer properties with multipleOf (integral, fractional, larger than a narrow type) with and without --min-sized-ints: the emitted remainder test type-checks (math import, operand conversions, constant operands)")),
@@ -176,7 +179,7 @@ func init() {
 	reg(&Property{ID: "C02", Units: l3All("C02.")})
 	reg(&Property{ID: "C03", Units: l3All("C03.")})
 	reg(&Property{ID: "C08", Units: []Unit{
-		l3Unit("enums", map[string]int{"KINDS": 4544, "DEPTH": 0}, "C08.", "string/integer/mixed/string-or-null enums, typed and untyped, inline and via $ref, required and optional"),
+		l3Unit("enums", map[string]int{"KINDS": 4544, "DEPTH": 0, "ENUMTEXT": 1}, "C08.", "string/integer/mixed/string-or-null enums, typed and untyped, inline and via $ref, required and optional; string members are plain words or text with format verbs, quotes, backslashes and a newline"),
 		l3Unit("enums-in-arrays-and-objects", map[string]int{"KINDS": 48, "DEPTH": 1, "ITEMKINDS": 4288}, "C08.", "enums as array items and object members"),
 	}})
 	reg(&Property{ID: "C19", Units: l3All("C19.")})
